@@ -520,10 +520,17 @@ func extraMenu3() []callT {
 		{"Map(empty map, k required)", func() []interface{} {
 			return []interface{}{map[string]string{}, valid.RM{"k": "required|need-k"}}
 		}, func(a []interface{}) (string, []string) { return errText(valid.Map(a[0], a[1].(valid.RM))), nil }, nil},
+		// (expected texts written out: a baseline computed in this process would itself come after the other call)
 		{"Var(malformed to=7)", func() []interface{} { return []interface{}{"abc", []string{"to=7"}} },
-			func(a []interface{}) (string, []string) { return errText(valid.Var(a[0], a[1].([]string)...)), nil }, nil},
+			func(a []interface{}) (string, []string) { return errText(valid.Var(a[0], a[1].([]string)...)), nil },
+			func() (string, bool) {
+				return "valid \"to\" is not ok, eg: type Test struct {\n    Name string `valid:\"to=1~10\"`\n}", true
+			}},
 		{"Var(malformed oto=7)", func() []interface{} { return []interface{}{"abc", []string{"oto=7"}} },
-			func(a []interface{}) (string, []string) { return errText(valid.Var(a[0], a[1].([]string)...)), nil }, nil},
+			func(a []interface{}) (string, []string) { return errText(valid.Var(a[0], a[1].([]string)...)), nil },
+			func() (string, bool) {
+				return "valid \"to\" is not ok, eg: type Test struct {\n    Name string `valid:\"oto=1~10\"`\n}", true
+			}},
 		{"UrlForFn(url with k, function under a rule name of its own)", func() []interface{} { return []interface{}{"http://h/p?k=abc&j="} },
 			func(a []interface{}) (string, []string) { return errText(valid.UrlForFn(a[0], "k", zzFn)), nil }, nil},
 		{"NewVMap().Valid(map) without rules", func() []interface{} { return []interface{}{map[string]string{"k": "", "j": "abc"}} },
